@@ -438,4 +438,26 @@ func TestC15(t *testing.T) {
 		return
 	}
 	ev.Check(t, "c15_pure", ev.N(16000, 200000), c15Gen, c15Run)
+	// repeated Alphabet() calls on an untouched recipe ("same value every call")
+	ev.Check(t, "c15_alphabet_stable", ev.N(800, 8000), func(t *rapid.T) oracle.CharSpec {
+		sp := gen.CharSpec(t, gen.CharOpts{MaxLen: 8, MaxReq: 2})
+		n := rapid.IntRange(0, 4).Draw(t, "stray")
+		for i := 0; i < n; i++ {
+			// only valid UTF-8: with stray bytes the pinned code itself is not a
+			// function of the recipe (two stray bytes can merge into one character
+			// depending on set iteration order) - outside the stated input domain
+			sp.AllowChars += rapid.SampledFrom([]string{"\uFFFD", "\u0301", "É", "\u00a0"}).Draw(t, "odd_char")
+		}
+		return sp
+	}, func(sp oracle.CharSpec) error {
+		r := toRecipe(sp)
+		first := r.Alphabet()
+		for i := 0; i < 12; i++ {
+			if a := r.Alphabet(); a != first {
+				return fmt.Errorf("Alphabet() of an untouched recipe returned %q and then %q", first, a)
+			}
+		}
+		ev.NonTrivial(fmt.Sprintf("%+v", sp))
+		return nil
+	})
 }
